@@ -8,6 +8,7 @@ package json
 
 import (
 	"bytes"
+	"errors"
 	"io"
 
 	"github.com/segmentio/encoding/json"
@@ -29,4 +30,20 @@ func (d *Decoder) Decode(v any) error {
 
 func Unmarshal(data []byte, v any) error {
 	return NewDecoder(bytes.NewReader(data)).Decode(v)
+}
+
+// UnmarshalExactInts is like [Unmarshal], except that where the destination is
+// an interface value, integer literals that fit in an int64 (or, if
+// non-negative, in a uint64) are decoded as int64 (uint64) instead of float64,
+// so that they survive a decode/encode round trip unchanged. All other numbers
+// are decoded as float64, as usual.
+func UnmarshalExactInts(data []byte, v any) error {
+	rest, err := json.Parse(data, v, json.DontMatchCaseInsensitiveStructFields|json.UseInt64|json.UseUint64)
+	if err != nil {
+		return err
+	}
+	if len(bytes.TrimSpace(rest)) != 0 {
+		return errors.New("json: unexpected data after top-level value")
+	}
+	return nil
 }
